@@ -53,6 +53,8 @@ def patched(rng, entry) -> bytes:
     """A genuine message with PRNG register values (structure untouched)."""
     data = entry["data"]
     if entry["form"] == "p1":
+        if rng.random() < 0.15:  # a free-text value padded with blanks
+            data = data.replace(b"(", b"( ", 1) if rng.random() < 0.5 else data.replace(b")", b" )", 1)
         out = bytearray(data)
         for i, b in enumerate(out):
             if 0x30 <= b <= 0x39 and rng.random() < 0.3 and i > 0 and out[i - 1] not in b"-:.(" and (i + 1 >= len(out) or out[i + 1] not in b"-:"):
@@ -67,10 +69,32 @@ def patched(rng, entry) -> bytes:
 HOT_VALUES = [0xFF, 0x00, 0x01, 0x02, 0x09, 0x0A, 0x06, 0x12, 0x10, 0x0F, 0x16, 0x0C, 0x80, 0x7F]
 
 
+DT_VALUES = [0x00, 0xFF, 0xFE, 0xFD, 0x80, 0x0D, 0x1F, 0x20, 0x3C, 0x63, 0x64, 0x7F]
+
+
+def mutate_datetime(rng, data: bytes):
+    """1..3 octets inside a located 12-octet COSEM date-time set to values the standard gives a special meaning
+    (0xFF not specified, 0xFE last day, 0xFD second-last day, 0x80 deviation not specified) or to out-of-range values."""
+    spots = [i + 2 for i in range(len(data) - 13) if data[i] == 0x09 and data[i + 1] == 0x0C]
+    if len(data) > 21 and data[:4] == b"\xe6\xe7\x00\x0f" and data[8] == 0x0C:
+        spots.append(9)
+    if not spots:
+        return None
+    out = bytearray(data)
+    base = rng.choice(spots)
+    for _ in range(rng.randint(1, 3)):
+        out[base + rng.randrange(12)] = rng.choice(DT_VALUES + [rng.randrange(256)])
+    return bytes(out)
+
+
 def mutate(rng, data: bytes) -> bytes:
     """1..5 octets changed, biased to type tags / lengths / OBIS / date-time octets -> hot values."""
     if not data:
         return data
+    if rng.random() < 0.15:
+        dt = mutate_datetime(rng, data)
+        if dt is not None:
+            return dt
     out = bytearray(data)
     leaves = None
     for _ in range(rng.randint(1, 5)):
